@@ -79,8 +79,31 @@ def m_fill(I, a, v):
 
 def m_int(I, x):
     if is_sym(x):
+        if z3.is_real(x):
+            return z3.If(x >= 0, z3.ToInt(x), -z3.ToInt(-x))
         return x
     return int(x)
+
+
+def m_round(I, x, nd=None):
+    if is_sym(x):
+        if nd is not None:
+            raise Unsupported("round with ndigits on a symbolic value")
+        from vf import fork
+        return fork.round_half_even(x)
+    return round(x) if nd is None else round(x, nd)
+
+
+def m_abs(I, x):
+    if is_sym(x):
+        return z3.If(x >= 0, x, -x)
+    return abs(x)
+
+
+def m_float(I, x=0.0):
+    if is_sym(x):
+        return z3.ToReal(x) if z3.is_int(x) else x
+    return float(x)
 
 
 def m_asarray(I, x, **kw):
@@ -108,5 +131,8 @@ def install(I):
     M[numpy.count_nonzero] = m_sum_bool
     M[numpy.vdot] = m_vdot
     M[builtins.int] = m_int
+    M[builtins.round] = m_round
+    M[builtins.abs] = m_abs
+    M[builtins.float] = m_float
     M[numpy.asarray] = m_asarray
     M["arr.fill"] = m_fill
